@@ -282,6 +282,9 @@ class J1939_22:
             if dest_address == ParameterGroupNumber.Address.GLOBAL:
 
                 # send BAM
+                if pgn.is_pdu1_format:
+                    # PDU1 PGN sent to the global address: PS is the destination, not part of the PGN
+                    pgn.pdu_specific = 0
                 self.__send_tp_bam(priority, src_address, session_num, pgn.value, message_size, num_segments)
 
                 # init new buffer for this connection
